@@ -204,7 +204,16 @@ func Decompress(codec string, stored []byte) ([]byte, error) {
 		if len(stored) < 4 {
 			return nil, errors.New("ref: snappy block shorter than its checksum")
 		}
-		out, err := snappy.Decode(nil, stored[:len(stored)-4])
+		body := stored[:len(stored)-4]
+		// snappy.Decode allocates the declared length up front; no valid stream
+		// expands by more than 64/3, so a larger claim is a rejection (and must
+		// not be allowed to exhaust the oracle's own memory).
+		if n, err := snappy.DecodedLen(body); err != nil {
+			return nil, err
+		} else if n > 22*len(body)+64 {
+			return nil, errors.New("ref: snappy stream declares an impossible length")
+		}
+		out, err := snappy.Decode(nil, body)
 		if err != nil {
 			return nil, err
 		}
